@@ -1,2 +1,183 @@
--- Driver stub for C14 (replaced when the property's model driver is written).
-def main : IO Unit := IO.println "C14: no driver yet"
+import TsVerif.Common.IO
+import TsVerif.Common.Tree
+import TsVerif.C14.Lex
+/-!
+Driver for C14.  Input: `set <id> <tokenset>` / `kw <idx,…|->` / `s <codepoints> <real leaves|E|->` / `endset <id>`.
+Output per set: `S-<id> corr=… judge=… strings=… …`.
+-/
+open TsVerif TsVerif.C14 TsVerif.C14.Regex
+
+def hexNat (s : String) : Nat := parseHexNat s
+
+-- parser for the AST serialisation of harness/src/bin/c14.rs ---------------------------------------
+
+def takeWhileIdx (cs : Array Char) (i : Nat) (p : Char → Bool) : Nat := Id.run do
+  let mut j := i
+  while j < cs.size && p cs[j]! do j := j + 1
+  return j
+
+def strOf (cs : Array Char) (i j : Nat) : String := String.ofList (cs.toList.drop i |>.take (j - i))
+
+def ws : List (Nat × Nat) := [(9, 13), (32, 32)]
+
+partial def parseRe (cs : Array Char) (i : Nat) : Regex × Nat :=
+  let c := cs[i]!
+  let i := i + 1
+  match c with
+  | 'L' =>
+    let rec lits (i : Nat) (acc : List Nat) : List Nat × Nat :=
+      let j := takeWhileIdx cs i (fun c => c.isDigit || ('a' ≤ c && c ≤ 'f'))
+      let acc := if j > i then acc ++ [hexNat (strOf cs i j)] else acc
+      if j < cs.size && cs[j]! == '.' then lits (j + 1) acc else (acc, j)
+    let (v, j) := lits i []
+    (lit v, j)
+  | 'C' =>
+    let neg := cs[i]! == '1'
+    let rec rngs (i : Nat) (acc : List (Nat × Nat)) : List (Nat × Nat) × Nat :=
+      if i < cs.size && cs[i]! == ':' then
+        let j := takeWhileIdx cs (i + 1) (fun c => c.isDigit || ('a' ≤ c && c ≤ 'f'))
+        let a := hexNat (strOf cs (i + 1) j)
+        let k := takeWhileIdx cs (j + 1) (fun c => c.isDigit || ('a' ≤ c && c ≤ 'f'))
+        let b := hexNat (strOf cs (j + 1) k)
+        rngs k (acc ++ [(a, b)])
+      else (acc, i)
+    let (rs, j) := rngs (i + 1) []
+    (.cls (if neg then rs ++ ws else rs) neg, j)
+  | 'S' | 'A' =>
+    let (a, j) := parseRe cs (i + 1)
+    let (b, k) := parseRe cs (j + 1)
+    ((if c == 'S' then .seq a b else .alt a b), k + 1)
+  | 'K' | 'P' | 'O' =>
+    let (a, j) := parseRe cs (i + 1)
+    ((match c with | 'K' => .star a | 'P' => plus a | _ => opt a), j + 1)
+  | 'R' =>
+    let j := takeWhileIdx cs i Char.isDigit
+    let m := (strOf cs i j).toNat!
+    let k := takeWhileIdx cs (j + 1) Char.isDigit
+    let n := (strOf cs (j + 1) k).toNat!
+    let (a, e) := parseRe cs (k + 1)
+    (rep a m n, e + 1)
+  | _ => (.empty, i)
+
+structure SetInfo where
+  id : String := ""
+  toks : List Token := []
+  texts : List (Option (List Nat)) := []     -- literal text of String tokens
+  word : Option Nat := none
+  kws : List Nat := []
+  ambig : List Nat := []
+  deriving Inhabited
+
+def parseLit (cs : Array Char) : Option (List Nat) :=
+  if cs.size > 0 && cs[0]! == 'L' then
+    some (((String.ofList cs.toList).drop 1).toString.splitOn "." |>.filter (· != "") |>.map hexNat)
+  else none
+
+def parseSet (id spec : String) : SetInfo :=
+  match spec.splitOn ";" with
+  | w :: rest =>
+    let word := (w.drop 1).toString.toNat?
+    let toks := rest.map (fun t => match t.splitOn "," with
+      | p :: s :: ast =>
+        let a := ",".intercalate ast
+        let cs := a.toList.toArray
+        (({ re := (parseRe cs 0).1, prec := p.toInt?.getD 0, isString := s == "1" } : Token),
+         (if s == "1" then parseLit cs else none))
+      | _ => (default, none))
+    { id := id, toks := toks.map (·.1), texts := toks.map (·.2), word := word }
+  | _ => {}
+
+def isExtra (c : Nat) : Bool := (9 ≤ c && c ≤ 13) || c == 32
+
+def chooser (si : SetInfo) (useRef : Bool) : List Nat → Option Cand :=
+  let validMain : Nat → Bool := fun i => !si.kws.contains i
+  let validKw : Nat → Bool := fun i => si.kws.contains i
+  let pick (v : Nat → Bool) : List Nat → Option Cand := if useRef then refToken si.toks v else lexScan si.toks v
+  match si.word with
+  | some w => withKeywords (pick validMain) (pick validKw) w
+  | none => pick validMain
+
+def parseReal (r : String) : Option (List (Nat × Nat × Nat)) :=
+  if r == "E" then none
+  else if r == "-" then some []
+  else some ((r.splitOn ",").map (fun w => match (w.splitOn ":").map natOf with | [a, b, c] => (a, b, c) | _ => (0, 0, 0)))
+
+/-- first position (lock-step) at which the two choosers differ: (scan choice, ref choice) -/
+partial def firstDiff (cs cr : List Nat → Option Cand) (input : List Nat) : Option (Option Cand × Option Cand) :=
+  let inp := skipExtras isExtra input
+  if inp.isEmpty then none else
+  let a := cs inp; let b := cr inp
+  if a != b then some (a, b) else
+  match a with
+  | some (_, n) => if n == 0 then none else firstDiff cs cr (inp.drop n)
+  | none => none
+
+structure Tally where
+  strings : Nat := 0
+  errors : Nat := 0
+  nontrivial : Nat := 0
+  corrBad : Nat := 0
+  firstCorr : String := ""
+  dev : Nat := 0
+  overtake : Nat := 0
+  other : Nat := 0
+  firstOvertake : String := ""
+  firstOther : String := ""
+  tokens : Nat := 0
+  deriving Inhabited
+
+structure St where
+  si : SetInfo := {}
+  /-- one tally per assignment of the unclassifiable tokens to the keyword lexer -/
+  variants : Array (List Nat × Tally) := #[]
+
+def sublists : List Nat → List (List Nat)
+  | [] => [[]]
+  | x :: xs => let r := sublists xs; r ++ r.map (x :: ·)
+
+def evalString (si : SetInfo) (cps : String) (input : List Nat) (r : Option (List (Nat × Nat × Nat))) (a : Tally) : Tally :=
+  let cs := chooser si false
+  let cr := chooser si true
+  let mscan := refTokenize cs isExtra input
+  let mref := refTokenize cr isExtra input
+  let a := { a with strings := a.strings + 1, errors := a.errors + (if r.isNone then 1 else 0),
+                    tokens := a.tokens + (r.getD []).length }
+  let inp0 := skipExtras isExtra input
+  let nt := ((candidates si.toks (fun _ => true) inp0).map (·.1)).eraseDups.length ≥ 2
+  let a := if nt then { a with nontrivial := a.nontrivial + 1 } else a
+  let a := if mscan != r then { a with corrBad := a.corrBad + 1, firstCorr := if a.firstCorr == "" then cps else a.firstCorr } else a
+  if mref != r then
+    let kind := match firstDiff cs cr input with
+      | some (some (t, n), some (t', n')) =>
+        if (tokAt si.toks t').prec > (tokAt si.toks t).prec && n > n' then "overtake" else "other"
+      | _ => "other"
+    if kind == "overtake" then { a with dev := a.dev + 1, overtake := a.overtake + 1, firstOvertake := if a.firstOvertake == "" then cps else a.firstOvertake }
+    else { a with dev := a.dev + 1, other := a.other + 1, firstOther := if a.firstOther == "" then cps else a.firstOther }
+  else a
+
+def step (s : St) (line : String) : IO St := do
+  match line.splitOn " " with
+  | ["set", id, spec] => return { si := parseSet id spec, variants := #[] }
+  | ["kw", l] => return { s with si := { s.si with kws := if l == "-" then [] else (l.splitOn ",").map natOf } }
+  | ["ambig", l] =>
+    let amb := if l == "-" then [] else (l.splitOn ",").map natOf
+    let vs := if amb.length > 3 then #[] else ((sublists amb).map (fun extra => (s.si.kws ++ extra, ({} : Tally)))).toArray
+    return { s with si := { s.si with ambig := amb }, variants := vs }
+  | ["s", cps, real] =>
+    let input := if cps == "-" then [] else (cps.splitOn ".").map hexNat
+    let r := parseReal real
+    return { s with variants := s.variants.map (fun (kws, a) => (kws, evalString { s.si with kws := kws } cps input r a)) }
+  | ["endset", id] =>
+    if s.variants.isEmpty then
+      IO.println s!"S-{id} skipped=too-many-unclassified-tokens ambig={s.si.ambig}"
+      return s
+    let best := s.variants.foldl (fun (b : List Nat × Tally) v => if v.2.corrBad < b.2.corrBad then v else b) s.variants[0]!
+    let a := best.2
+    let corr := if a.corrBad == 0 then "ok" else s!"DIFF {a.firstCorr}"
+    let judge := if a.other > 0 then s!"FAIL other {a.firstOther}" else if a.overtake > 0 then s!"FAIL overtake {a.firstOvertake}" else "ok"
+    IO.println s!"S-{id} corr={corr} judge={judge} strings={a.strings} errors={a.errors} nontrivial={a.nontrivial} corrbad={a.corrBad} docdev={a.dev} overtake={a.overtake} other={a.other} tokens={a.tokens} ntok={s.si.toks.length} word={s.si.word.isSome} keywords={best.1.length} unclassified={s.si.ambig.length}"
+    return s
+  | _ => return s
+
+def main : IO Unit := do
+  let _ ← foldLines (← IO.getStdin) ({} : St) step
